@@ -27,6 +27,7 @@
 -/
 import TaurexModel.Gen.SrcC09
 import Proofs.C09SrcLemmas
+import Proofs.C09SrcChains
 set_option linter.unusedSectionVars false
 set_option linter.unusedVariables false
 
@@ -233,6 +234,287 @@ theorem src_derived_restore (index : List Nat) (gt : List α) :
 
 theorem src_derived_param_keys :
     Gen.SrcC09.derived_param_keys = ["mean", "sigma_m", "sigma_p", "trace", "value"] := rfl
+
+end
+
+/-! ### the chains files: what `store_nest_solutions` / `store_polychord_solutions` read back before they summarise
+
+  The statements from `modes = []` (`modes_array = []`) up to the loop over the modes, translated in the dialect `seq` once per
+  calling pattern.  File contents are inputs: `data` = `np.loadtxt` of the chains table, `lines` = `f.readlines()` of
+  `<base>post_separate.dat`, `splitWs` / `parseFloat` = `str.split()` / `float(token)`; the model works on the parsed lines
+  `toPLine` (is the line exactly `"\n"`, its numbers). -/
+
+section
+variable {α : Type} [OfNat α 0]
+
+/-- **`store_nest_solutions`, `multimodes = False`**: one solution — the samples are the columns `2:` and the weights column
+    `0` of `<base>.txt` (`nestChainsSingle`); `modes = [0]` (one mode) -/
+theorem src_multinest_chains_single (data : List (List α)) :
+    Gen.SrcC09.multinest_chains_single data
+      = ((nestChainsSingle data).1, (nestChainsSingle data).2, [(0 : α)]) := rfl
+
+/-- **`store_nest_solutions`, `multimodes = True`**: the line loop over `post_separate.dat` (from the fourth line on, two
+    empty lines before a line close the mode; a line with more than two tokens is a sample with weight `tokens[0]`) and the
+    per-mode arrays (`np.zeros((len(mode), len(mode[0])))` filled row by row) are the model's `nestChainsModes` of the parsed
+    lines; the third component, `modes`, is the list of modes whose length the loop over the solutions runs over -/
+theorem src_multinest_chains_modes (data : List (List α)) (lines : List String) (splitWs : String → List String)
+    (parseFloat : String → α) :
+    Gen.SrcC09.multinest_chains_modes data lines parseFloat splitWs
+      = ((nestChainsModes (lines.map (toPLine splitWs parseFloat))).1,
+         (nestChainsModes (lines.map (toPLine splitWs parseFloat))).2,
+         (splitModes (lines.map (toPLine splitWs parseFloat))).1) := by
+  have hloop := lineLoop_eq lines splitWs parseFloat lines []
+    { modes := [], weights := [], chains := [], cw := [], prev1 := false, prev2 := false, idx := 0 } rfl rfl
+    ⟨fun h => absurd h (Nat.not_succ_le_zero 0), fun h => absurd h (Nat.not_succ_le_zero 1)⟩
+  have hgen : Gen.SrcC09.multinest_chains_modes data lines parseFloat splitWs
+      = (let st := List.foldl (lineStep lines splitWs parseFloat) ([], [], [], []) (List.zipIdx lines)
+         (List.foldl (fun (acc : List (List (List α))) (mode : List (List α)) => acc ++ [
+            List.foldl (fun (M : List (List α)) (it : List α × Nat) => Gen.Np.setRow M it.2 it.1)
+              (List.replicate mode.length (List.replicate (List.length (mode.getD 0 [])) (0 : α))) (List.zipIdx mode)])
+            [] (st.1 ++ [st.2.2.1]),
+          st.2.1 ++ [st.2.2.2], st.1 ++ [st.2.2.1])) := rfl
+  rw [hgen]
+  simp only [List.length_nil] at hloop
+  have hl : listsOf ({ modes := [], weights := [], chains := [], cw := [], prev1 := false, prev2 := false, idx := 0 } :
+      SplitState α) = ([], [], [], []) := rfl
+  rw [hl] at hloop
+  rw [hloop]
+  dsimp only
+  rw [foldl_append_map]
+  simp only [listsOf, nestChainsModes, splitModes, modeArray_src, List.nil_append]
+
+/-- `M[:, 2:n+2]` row by row -/
+theorem slice_cols (n : Nat) (r : List α) : Gen.Np.slice r 2 (n + 2) = (r.drop 2).take n := by
+  unfold Gen.Np.slice
+  rw [Nat.add_sub_cancel]
+
+/-- the loop over the cluster files: `modes_array` / `modes_weights` grow by one table per file -/
+theorem cluster_loop (nfit : Nat) (cluster : Nat → List (List α)) (data : List (List α)) :
+    ∀ (ks : List Nat) (d : List (List α)) (A : List (List (List α))) (W : List (List α)),
+      ks ≠ [] ∨ d = data →
+      (List.foldl (fun (st : List (List α) × List (List (List α)) × List (List α)) (midx : Nat) =>
+          (cluster midx,
+           st.2.1 ++ [List.map (fun r => Gen.Np.slice r 2 (nfit + 2)) (cluster midx)],
+           st.2.2 ++ [List.map (fun r => r.getD 0 (0 : α)) (cluster midx)])) (d, A, W) ks).2
+        = (A ++ ks.map (fun k => tableSamplesN nfit (cluster k)), W ++ ks.map (fun k => tableWeights (cluster k)))
+  | [], d, A, W, _ => by simp
+  | k :: ks, d, A, W, _ => by
+    rw [List.foldl_cons]
+    have ih := cluster_loop nfit cluster data ks (cluster k)
+      (A ++ [List.map (fun r => Gen.Np.slice r 2 (nfit + 2)) (cluster k)])
+      (W ++ [List.map (fun r => r.getD 0 (0 : α)) (cluster k)])
+    by_cases hks : ks = []
+    · subst hks
+      simp [tableSamplesN, tableWeights, slice_cols]
+    · rw [ih (Or.inl hks)]
+      simp [tableSamplesN, tableWeights, slice_cols]
+
+/-- **`store_polychord_solutions`**, from `modes_array = []` up to the loop over the clusters: without clustering, or with
+    one cluster, the table `1-.txt` (samples = columns `2:num_fit_params+2`, weights = column `0`); otherwise one solution
+    per cluster file — the model's `polyChains`.  `clusterTable k` = `np.loadtxt` of `clusters/1-_{k+1}.txt`, `nFit` =
+    `len(self.fit_names)`. -/
+theorem src_polychord_chains (data : List (List α)) (nClusters : Nat) (cluster : Nat → List (List α)) (dc : Bool)
+    (nFit : Nat) :
+    Gen.SrcC09.polychord_chains data nClusters cluster dc nFit
+      = polyChains nFit dc nClusters data cluster := by
+  unfold Gen.SrcC09.polychord_chains polyChains
+  cases dc
+  · simp [tableSamplesN, tableWeights, slice_cols]
+  · by_cases h1 : nClusters = 1
+    · simp [h1, tableSamplesN, tableWeights, slice_cols]
+    · have hl := cluster_loop nFit cluster data (List.range' 0 nClusters) data [] [] (Or.inr rfl)
+      simp only [h1, decide_false, Bool.false_eq_true, if_false, if_true]
+      rw [Prod.ext_iff] at hl
+      simp only [List.nil_append] at hl
+      simp only [hl.1, hl.2, List.range_eq_range']
+
+end
+
+/-! ### the whole store functions of the MultiNest / PolyChord wrappers
+
+  `NEST_out = {'solutions': {}}`, the chains (the statement range tied above, called as a function), the loop over the modes
+  (`for nmode in range(…)`: one iteration = `multinest_mode` / `polychord_mode`, stored under `'solution{}'.format(nmode)`),
+  `return NEST_out`.  The value is the sub-dict `solutions` as the list of its stores.  `nmap k`, `nmean k`, `nsig k` are the
+  sampler's own `NEST_stats['modes'][k][…]` lists (pass-through inputs, functions of the mode index). -/
+
+section
+variable {α : Type} [Add α] [Sub α] [Mul α] [Div α] [Neg α] [LT α] [LE α] [DecidableLT α] [DecidableLE α]
+  [Taurex.Transc α] [OfNat α 0] [OfNat α 16] [OfNat α 50] [OfNat α 84] [OfNat α 100]
+
+/-- the dict MultiNest's wrapper stores for one mode, in terms of the model: per fit name `(mean, nest_map, nest_sigma,
+    sigma_m, sigma_p, trace, value)`, then `tracedata`, `weights` -/
+def nestModeRec {Name : Type} (names : List Name) (nmap nmean nsig : List α) (trace : List (List α)) (w : List α) :
+    List (Name × (α × α × α × α × α × List α × α)) × List (List α) × List α :=
+  (names.zipIdx.map (fun it => (it.1,
+     (nmean.getD it.2 0, nmap.getD it.2 0, nsig.getD it.2 0, (summary (column trace it.2) w).sigmaM,
+      (summary (column trace it.2) w).sigmaP, column trace it.2, (summary (column trace it.2) w).value))),
+   (storeOutput names.length trace w).tracedata, (storeOutput names.length trace w).weights)
+
+/-- the same for PolyChord: `(nest_map, nest_mean, nest_sigma, sigma_m, sigma_p, trace, value)` -/
+def polyModeRec {Name : Type} (names : List Name) (nmap nmean nsig : List α) (trace : List (List α)) (w : List α) :
+    List (Name × (α × α × α × α × α × List α × α)) × List (List α) × List α :=
+  (names.zipIdx.map (fun it => (it.1,
+     (nmap.getD it.2 0, nmean.getD it.2 0, nsig.getD it.2 0, (summary (column trace it.2) w).sigmaM,
+      (summary (column trace it.2) w).sigmaP, column trace it.2, (summary (column trace it.2) w).value))),
+   (storeOutput names.length trace w).tracedata, (storeOutput names.length trace w).weights)
+
+/-- the solutions a wrapper stores for `count` modes whose samples / weights are `arrays[k]` / `weights[k]` -/
+def solutionsOf {ρ : Type} (rec : Nat → List (List α) → List α → ρ) (arrays : List (List (List α)))
+    (weights : List (List α)) (count : Nat) : List (String × ρ) :=
+  (List.range count).map (fun k => ("solution" ++ toString k, rec k (arrays.getD k []) (weights.getD k [])))
+
+theorem solutions_congr {ρ : Type} (f g : Nat → ρ) (count : Nat) (h : ∀ k < count, f k = g k) :
+    (List.range count).map (fun k => ("solution" ++ toString k, f k))
+      = (List.range count).map (fun k => ("solution" ++ toString k, g k)) := by
+  apply List.map_congr_left
+  intro k hk
+  rw [h k (List.mem_range.1 hk)]
+
+/-- every mode the line loop closes has as many weights as samples -/
+theorem splitStep_lengths (st : SplitState α) (l : PLine α)
+    (h : st.chains.length = st.cw.length ∧ st.modes.length = st.weights.length ∧
+      ∀ k, (st.modes.getD k []).length = (st.weights.getD k []).length) :
+    (splitStep st l).chains.length = (splitStep st l).cw.length ∧
+    (splitStep st l).modes.length = (splitStep st l).weights.length ∧
+      ∀ k, ((splitStep st l).modes.getD k []).length = ((splitStep st l).weights.getD k []).length := by
+  obtain ⟨h1, h2, h3⟩ := h
+  unfold splitStep
+  by_cases hs : 2 < st.idx ∧ st.prev1 = true ∧ st.prev2 = true <;>
+    by_cases hc : 0 < (List.drop 2 l.toks).length <;>
+    simp only [hs, hc, if_true, if_false, List.length_append, List.length_nil, List.length_singleton, h1, h2,
+      and_self, true_and] <;>
+    first
+      | exact h3
+      | (intro k
+         by_cases hk : k < st.modes.length
+         · have hk' : k < st.weights.length := h2 ▸ hk
+           have := h3 k
+           simp only [List.getD_eq_getElem?_getD, List.getElem?_append_left hk, List.getElem?_append_left hk'] at this ⊢
+           exact this
+         · by_cases hk2 : k = st.modes.length
+           · have hk3 : k = st.weights.length := h2 ▸ hk2
+             simp only [List.getD_eq_getElem?_getD]
+             rw [List.getElem?_append_right (by omega), List.getElem?_append_right (by omega)]
+             simp [hk2, ← hk3, h1]
+           · have e1 : (st.modes ++ [st.chains])[k]? = none := by
+               rw [List.getElem?_eq_none_iff]; simp; omega
+             have e2 : (st.weights ++ [st.cw])[k]? = none := by
+               rw [List.getElem?_eq_none_iff]; simp; omega
+             simp [List.getD_eq_getElem?_getD, e1, e2])
+
+theorem splitFold_lengths (lines : List (PLine α)) : ∀ (st : SplitState α),
+    (st.chains.length = st.cw.length ∧ st.modes.length = st.weights.length ∧
+      ∀ k, (st.modes.getD k []).length = (st.weights.getD k []).length) →
+    ((lines.foldl splitStep st).chains.length = (lines.foldl splitStep st).cw.length ∧
+     (lines.foldl splitStep st).modes.length = (lines.foldl splitStep st).weights.length ∧
+      ∀ k, ((lines.foldl splitStep st).modes.getD k []).length = ((lines.foldl splitStep st).weights.getD k []).length) := by
+  induction lines with
+  | nil => intro st h; exact h
+  | cons l ls ih => intro st h; exact ih _ (splitStep_lengths st l h)
+
+/-- every mode of `post_separate.dat` has as many weights as samples -/
+theorem splitModes_lengths (lines : List (PLine α)) (k : Nat) :
+    ((splitModes lines).1.getD k []).length = ((splitModes lines).2.getD k []).length := by
+  obtain ⟨h1, h2, h3⟩ := splitFold_lengths lines
+    { modes := [], weights := [], chains := [], cw := [], prev1 := false, prev2 := false, idx := 0 }
+    ⟨rfl, rfl, fun k => by simp⟩
+  unfold splitModes
+  simp only
+  generalize List.foldl splitStep _ lines = st at h1 h2 h3
+  by_cases hk : k < st.modes.length
+  · have hk' : k < st.weights.length := h2 ▸ hk
+    have := h3 k
+    simp only [List.getD_eq_getElem?_getD, List.getElem?_append_left hk, List.getElem?_append_left hk'] at this ⊢
+    exact this
+  · by_cases hk2 : k = st.modes.length
+    · have hk3 : k = st.weights.length := h2 ▸ hk2
+      simp only [List.getD_eq_getElem?_getD]
+      rw [List.getElem?_append_right (by omega), List.getElem?_append_right (by omega)]
+      simp [hk2, ← hk3, h1]
+    · have e1 : (st.modes ++ [st.chains])[k]? = none := by
+        rw [List.getElem?_eq_none_iff]; simp; omega
+      have e2 : (st.weights ++ [st.cw])[k]? = none := by
+        rw [List.getElem?_eq_none_iff]; simp; omega
+      simp [List.getD_eq_getElem?_getD, e1, e2]
+
+theorem nestChainsModes_lengths (lines : List (PLine α)) (k : Nat) :
+    ((nestChainsModes lines).1.getD k []).length = ((nestChainsModes lines).2.getD k []).length := by
+  have h := splitModes_lengths lines k
+  unfold nestChainsModes
+  simp only [List.getD_eq_getElem?_getD, List.getElem?_map] at h ⊢
+  cases hm : (splitModes lines).1[k]? with
+  | none => simpa [hm] using h
+  | some m => simpa [hm, modeArray] using h
+
+/-- **the whole `store_nest_solutions`, `multimodes = False`**: one solution, `solution0`, whose record is the model's for
+    the samples / weights of `<base>.txt` -/
+theorem src_multinest_store_single {Name : Type} (names : List Name) (data : List (List α))
+    (nmap nmean nsig : Nat → List α) :
+    Gen.SrcC09.multinest_store_single (accumulate := cumsum 0) (argsort := argsortStable) (c0p16 := q16) (c0p5 := q50)
+        (c0p84 := q84) (data := data) (fit_names := names) (interp := interpAll) (nest_map := nmap)
+        (nest_mean := nmean) (nest_sigma := nsig)
+      = solutionsOf (fun k => nestModeRec names (nmap k) (nmean k) (nsig k)) (nestChainsSingle data).1
+          (nestChainsSingle data).2 1 := by
+  unfold Gen.SrcC09.multinest_store_single solutionsOf
+  rw [src_multinest_chains_single]
+  dsimp only [List.length_singleton]
+  apply solutions_congr
+  intro k hk
+  have hk0 : k = 0 := by omega
+  subst hk0
+  rw [src_multinest_mode names _ _ _ _ _ (by simp [nestChainsSingle, tableSamples, tableWeights])]
+  rfl
+
+/-- **the whole `store_nest_solutions`, `multimodes = True`**: one solution per mode of `post_separate.dat`, in file order,
+    stored under `solution0`, `solution1`, … -/
+theorem src_multinest_store_modes {Name : Type} (names : List Name) (data : List (List α)) (lines : List String)
+    (splitWs : String → List String) (parseFloat : String → α) (nmap nmean nsig : Nat → List α) :
+    Gen.SrcC09.multinest_store_modes (accumulate := cumsum 0) (argsort := argsortStable) (c0p16 := q16) (c0p5 := q50)
+        (c0p84 := q84) (data := data) (fit_names := names) (interp := interpAll) (lines := lines) (nest_map := nmap)
+        (nest_mean := nmean) (nest_sigma := nsig) (parseFloat := parseFloat) (splitWs := splitWs)
+      = solutionsOf (fun k => nestModeRec names (nmap k) (nmean k) (nsig k))
+          (nestChainsModes (lines.map (toPLine splitWs parseFloat))).1
+          (nestChainsModes (lines.map (toPLine splitWs parseFloat))).2
+          (splitModes (lines.map (toPLine splitWs parseFloat))).1.length := by
+  unfold Gen.SrcC09.multinest_store_modes solutionsOf
+  rw [src_multinest_chains_modes]
+  dsimp only
+  apply solutions_congr
+  intro k _
+  rw [src_multinest_mode names _ _ _ _ _ (nestChainsModes_lengths _ k)]
+  rfl
+
+/-- **the whole `store_polychord_solutions`**: one solution per cluster (one when clustering is off or there is one cluster) -/
+theorem src_polychord_store {Name : Type} (names : List Name) (data : List (List α)) (nClusters : Nat)
+    (cluster : Nat → List (List α)) (dc : Bool) (nFit : Nat) (nmap nmean nsig : Nat → List α) :
+    Gen.SrcC09.polychord_store (accumulate := cumsum 0) (argsort := argsortStable) (c0p16 := q16) (c0p5 := q50)
+        (c0p84 := q84) (clusterNumber := nClusters) (clusterTable := cluster) (data := data) (do_clustering := dc)
+        (fit_names := names) (interp := interpAll) (nFit := nFit) (nest_map := nmap) (nest_mean := nmean)
+        (nest_sigma := nsig)
+      = solutionsOf (fun k => polyModeRec names (nmap k) (nmean k) (nsig k)) (polyChains nFit dc nClusters data cluster).1
+          (polyChains nFit dc nClusters data cluster).2.1 (polyChains nFit dc nClusters data cluster).2.2 := by
+  unfold Gen.SrcC09.polychord_store solutionsOf
+  rw [src_polychord_chains]
+  dsimp only
+  apply solutions_congr
+  intro k _
+  have hlen : ((polyChains nFit dc nClusters data cluster).1.getD k []).length
+      = ((polyChains nFit dc nClusters data cluster).2.1.getD k []).length := by
+    unfold polyChains
+    by_cases hd : dc = true
+    · by_cases h1 : nClusters = 1
+      · simp only [hd, h1, if_true]
+        cases k <;> simp [tableSamplesN, tableWeights]
+      · simp only [hd, h1, if_true, if_false, List.getD_eq_getElem?_getD, List.getElem?_map]
+        cases (List.range nClusters)[k]? <;> simp [tableSamplesN, tableWeights]
+    · simp only [hd, Bool.false_eq_true, if_false]
+      cases k <;> simp [tableSamplesN, tableWeights]
+  rw [src_polychord_mode names _ _ _ _ _ hlen]
+  rfl
+
+theorem src_store_keys : Gen.SrcC09.multinest_store_single_keys = ["solutions"] ∧
+    Gen.SrcC09.multinest_store_modes_keys = ["solutions"] ∧ Gen.SrcC09.polychord_store_keys = ["solutions"] :=
+  ⟨rfl, rfl, rfl⟩
 
 end
 
